@@ -92,8 +92,10 @@ Record shared := mkS {
   s_sat : bool;              (* some add saturated *)
   s_full : bool;             (* the current file has no room for this counter's record: the first
                                 lookup that has to create it extends the file (newCounter1's newM) *)
-  s_new : option nat         (* lock holder only: the mapping lookup returned a pointer into,
+  s_new : option nat;        (* lock holder only: the mapping lookup returned a pointer into,
                                 not yet assigned to c.ptr (cleanup runs in between) *)
+  s_tight : bool             (* the current file has no room for the (large) record another counter's
+                                lookup creates: that lookup extends the file (changer SameFile) *)
 }.
 
 Definition state := (shared * list thread)%type.
@@ -110,17 +112,17 @@ Definition cell_of (s : shared) (g : nat) : Z := nth (file_of s g) (s_cells s) 0
 Definition is_closed (s : shared) (g : nat) : bool := existsb (Nat.eqb g) (s_closed s).
 
 Definition set_word (s : shared) (w : Z) : shared :=
-  mkS w (s_ptr s) (s_cur s) (s_maps s) (s_closed s) (s_cells s) (s_faults s) (s_sat s) (s_full s) (s_new s).
+  mkS w (s_ptr s) (s_cur s) (s_maps s) (s_closed s) (s_cells s) (s_faults s) (s_sat s) (s_full s) (s_new s) (s_tight s).
 Definition set_sat (s : shared) (b : bool) : shared :=
-  mkS (s_word s) (s_ptr s) (s_cur s) (s_maps s) (s_closed s) (s_cells s) (s_faults s) (s_sat s || b) (s_full s) (s_new s).
+  mkS (s_word s) (s_ptr s) (s_cur s) (s_maps s) (s_closed s) (s_cells s) (s_faults s) (s_sat s || b) (s_full s) (s_new s) (s_tight s).
 Definition set_ptr (s : shared) (p : option nat) : shared :=
-  mkS (s_word s) p (s_cur s) (s_maps s) (s_closed s) (s_cells s) (s_faults s) (s_sat s) (s_full s) (s_new s).
+  mkS (s_word s) p (s_cur s) (s_maps s) (s_closed s) (s_cells s) (s_faults s) (s_sat s) (s_full s) (s_new s) (s_tight s).
 Definition touch (s : shared) (g : nat) : shared :=   (* an access through mapping g *)
   mkS (s_word s) (s_ptr s) (s_cur s) (s_maps s) (s_closed s) (s_cells s)
-      (if is_closed s g then s_faults s + 1 else s_faults s) (s_sat s) (s_full s) (s_new s).
+      (if is_closed s g then s_faults s + 1 else s_faults s) (s_sat s) (s_full s) (s_new s) (s_tight s).
 Definition set_cell (s : shared) (g : nat) (v : Z) : shared :=
   mkS (s_word s) (s_ptr s) (s_cur s) (s_maps s) (s_closed s)
-      (upd (s_cells s) (file_of s g) v) (s_faults s) (s_sat s) (s_full s) (s_new s).
+      (upd (s_cells s) (file_of s g) v) (s_faults s) (s_sat s) (s_full s) (s_new s) (s_tight s).
 
 Definition with_pc (t : thread) (p : pc) : thread :=
   mkT p (t_kind t) (t_st t) (t_amt t) (t_old t) (t_prev t) (t_tgt t) (t_after t).
@@ -253,7 +255,7 @@ Definition step_thread (np : nops) (s : shared) (t : thread) : shared * thread :
                refresh every counter, close the previous mapping) runs before
                lookup returns *)
             let g := length (s_maps s) in
-            (mkS w (s_ptr s) (Some g) (s_maps s ++ [file_of s g0]) (s_closed s) (s_cells s) (s_faults s) (s_sat s) false (Some g),
+            (mkS w (s_ptr s) (Some g) (s_maps s ++ [file_of s g0]) (s_closed s) (s_cells s) (s_faults s) (s_sat s) false (Some g) false,
              mkT GIvLoad (t_kind t) (t_st t) (t_amt t) (t_old t) (Some g0) (t_tgt t) (t_after t))
           else (set_ptr s (s_cur s), with_pc t LCas)
       | _, _ => (set_ptr s (s_cur s), with_pc t LCas)
@@ -270,7 +272,7 @@ Definition step_thread (np : nops) (s : shared) (t : thread) : shared * thread :
   | GClose =>
       match t_prev t with
       | Some g =>
-          (mkS w (s_new s) (s_cur s) (s_maps s) (g :: s_closed s) (s_cells s) (s_faults s) (s_sat s) (s_full s) (s_new s),
+          (mkS w (s_new s) (s_cur s) (s_maps s) (g :: s_closed s) (s_cells s) (s_faults s) (s_sat s) (s_full s) (s_new s) (s_tight s),
            with_pc t LCas)
       | None => (set_ptr s (s_new s), with_pc t LCas)
       end
@@ -295,17 +297,19 @@ Definition step_thread (np : nops) (s : shared) (t : thread) : shared * thread :
       let t' := mkT Done Changer (t_st t) (t_amt t) (t_old t) (s_cur s) (t_tgt t) Done in
       match t_tgt t with
       | NewFile =>
-          (mkS w (s_ptr s) (Some g) (s_maps s ++ [length (s_cells s)]) (s_closed s) (s_cells s ++ [0]) (s_faults s) (s_sat s) false (s_new s),
+          (mkS w (s_ptr s) (Some g) (s_maps s ++ [length (s_cells s)]) (s_closed s) (s_cells s ++ [0]) (s_faults s) (s_sat s) false (s_new s) false,
            goto_nops t' (n_after_store_rotate np) IvLoad)
       | SameFile =>
           match s_cur s with
           | Some g0 =>
-              (mkS w (s_ptr s) (Some g) (s_maps s ++ [file_of s g0]) (s_closed s) (s_cells s) (s_faults s) (s_sat s) false (s_new s),
-               goto_nops t' (n_after_store_extend np) IvLoad)
+              if s_tight s then
+                (mkS w (s_ptr s) (Some g) (s_maps s ++ [file_of s g0]) (s_closed s) (s_cells s) (s_faults s) (s_sat s) false (s_new s) false,
+                 goto_nops t' (n_after_store_extend np) IvLoad)
+              else (s, with_pc t Done)   (* the record fits: nothing changes for this counter *)
           | None => (s, with_pc t Done)
           end
       | NoFile =>
-          (mkS w (s_ptr s) None (s_maps s) (s_closed s) (s_cells s) (s_faults s) (s_sat s) (s_full s) (s_new s),
+          (mkS w (s_ptr s) None (s_maps s) (s_closed s) (s_cells s) (s_faults s) (s_sat s) (s_full s) (s_new s) (s_tight s),
            goto_nops t' (n_after_store_rotate np) IvLoad)
       end
   | CNop k =>
@@ -325,7 +329,7 @@ Definition step_thread (np : nops) (s : shared) (t : thread) : shared * thread :
   | CClose =>
       match t_prev t with
       | Some g =>
-          (mkS w (s_ptr s) (s_cur s) (s_maps s) (g :: s_closed s) (s_cells s) (s_faults s) (s_sat s) (s_full s) (s_new s),
+          (mkS w (s_ptr s) (s_cur s) (s_maps s) (g :: s_closed s) (s_cells s) (s_faults s) (s_sat s) (s_full s) (s_new s) (s_tight s),
            with_pc t Done)
       | None => (s, with_pc t Done)
       end
@@ -345,7 +349,7 @@ Definition run (np : nops) (sched : list nat) (st : state) : state := fold_left 
 Definition adder (n : Z) : thread := mkT AIdle Adder 0 n 0 None NoFile Done.
 Definition changer (tg : target) : thread := mkT CIdle Changer 0 0 0 None tg Done.
 
-Definition init_shared : shared := mkS 0 None None [] [] [] 0 false false None.
+Definition init_shared : shared := mkS 0 None None [] [] [] 0 false false None false.
 
 (* ---- quantities the theorems speak about ---- *)
 Definition persisted (s : shared) : Z := fold_right Z.add 0 (s_cells s).
@@ -360,11 +364,11 @@ Definition code (o : option nat) : Z := match o with None => 0 | Some g => Z.of_
 Definition obs_of (s : shared) : Z * Z * Z * Z * Z :=
   (s_word s, code (s_ptr s), code (s_cur s), persisted s, Z.of_nat (length (s_closed s))).
 
-Definition init_of (w ptrc curc pers : Z) (full : bool) : shared :=
+Definition init_of (w ptrc curc pers : Z) (full tight : bool) : shared :=
   let opt c := if c =? 0 then None else Some (Z.to_nat (c - 1)) in
   match opt curc with
-  | None => mkS w (opt ptrc) None [] [] [] 0 false false None
-  | Some _ => mkS w (opt ptrc) (Some 0%nat) [0%nat] [] [pers] 0 false full None
+  | None => mkS w (opt ptrc) None [] [] [] 0 false false None false
+  | Some _ => mkS w (opt ptrc) (Some 0%nat) [0%nat] [] [pers] 0 false full None tight
   end.
 
 Definition all_done (ts : list thread) : bool := forallb is_done ts.
